@@ -13,10 +13,14 @@ from .engine import SHM, HarnessError, Violation, forked, h64
 LIB_ROOT = os.path.join(os.path.abspath(os.environ.get("VERIF_REPO", "/repo")), "PyMatterSim") + os.sep
 
 
-def line_tracer(limit):
+LINE_FAULTS = ("interrupt_line", "alloc_line")
+
+
+def line_tracer(limit, alloc=False):
     """sys.settrace hook: counts 'line' events inside the library's own source files and, when
-    limit > 0, delivers the simulated cancellation at the limit-th one (a Ctrl-C between two
-    lines of a numerical routine)."""
+    limit > 0, delivers at the limit-th one either the simulated cancellation (a Ctrl-C between
+    two lines of a numerical routine) or, with alloc=True, a failed allocation (MemoryError:
+    an `except Exception` that would let a cancellation pass does catch this one)."""
     state = {"n": 0, "fired": False}
 
     def local(frame, event, arg):
@@ -24,6 +28,8 @@ def line_tracer(limit):
             state["n"] += 1
             if limit and state["n"] == limit and not state["fired"]:
                 state["fired"] = True
+                if alloc:
+                    raise MemoryError("simulated allocation failure")
                 raise simio.SimInterrupt("simulated cancellation between two source lines")
         return local
 
@@ -102,7 +108,7 @@ class WorldBase:
         exc_info is None or (type name, message); a raised exception object is parked in
         self._last_exc for hold()/drop() so that the *client* decides its lifetime."""
         io = self.ctx.io
-        line_fault = fault is not None and fault.get("kind") == "interrupt_line"
+        line_fault = fault is not None and fault.get("kind") in LINE_FAULTS
         io.begin_op(None if line_fault else fault)
         if fault:
             self.ctx.faults_configured += 1
@@ -110,7 +116,7 @@ class WorldBase:
         exc = None
         state = None
         if line_fault:
-            tracer, state = line_tracer(fault["at"])
+            tracer, state = line_tracer(fault["at"], alloc=fault["kind"] == "alloc_line")
             sys.settrace(tracer)
         try:
             res = fn()
@@ -121,7 +127,7 @@ class WorldBase:
                 sys.settrace(None)
         nev, dig, fired = io.end_op()
         if line_fault and state["fired"]:
-            fired = ("interrupt_line", "line", fault["at"])
+            fired = (fault["kind"], "line", fault["at"])
         if fired and fired[0] == "yield":
             self.ctx.probe("operation_nested_at_io_event")
             self.ctx.log(f"yield at {fired[1]}#{fired[2]}")
